@@ -44,6 +44,30 @@ def grammar():
     return {'rules': rules, 'ign': [], 'start': 'start'}
 
 
+ACCUM = '''
+class Acc {
+    names: `[]`
+    seen: `{}`
+    pass (AWord |> `names.append`)+
+    pass `seen.update` <| `{"n": len(names)}`
+}
+AWord = /[ab]+/ << /,?/
+'''
+
+
+def accum_results(mod, texts):
+    out = []
+    for t in texts:
+        try:
+            o = mod.Acc.parse(t)
+            out.append(['ok', list(o.names), dict(o.seen)])
+        except mod.InputError as e:
+            out.append(['input-error', type(e).__name__])
+        except BaseException as e:  # noqa
+            out.append(['exc', type(e).__name__, str(e)[:100]])
+    return out
+
+
 def history_worker(case):
     """Run a history (list of steps) in one worker process and report every outcome."""
     import sys
@@ -99,6 +123,26 @@ def history_worker(case):
                 out.append(one('Outer', g2, 0, True))
             elif kind == 'nested2':
                 out.append(one('Outer2', step[1], 0, True))
+            elif kind == 'accum':
+                # inline Python outside the modelled repertoire (mutable accumulators): the isolated outcome of each
+                # call is what a freshly compiled module returns for it as its first call
+                here = accum_results(mod, step[1])
+                fresh = []
+                for t in step[1]:
+                    m2 = sourcer.Grammar(desc.replace('grammar vg_c18\n', ''))
+                    fresh.append(accum_results(m2, [t])[0])
+                out.append([here, fresh])
+            elif kind == 'siblings':
+                # two grammars that extend this one, override nothing and use the same new rule names
+                try:
+                    s1 = sourcer.Grammar('grammar vg_c18_sib1 extends vg_c18\nExtra = Word\nMore = [Extra, "!"]\n')
+                    before = [realrun.call_parse(s1, s1.More.parse, t, 0, True) for t in ('ab!', 'ab', '7!')]
+                    s2 = sourcer.Grammar('grammar vg_c18_sib2 extends vg_c18\nExtra = /[0-9]+/\nMore = [Extra, "?"]\n')
+                    after = [realrun.call_parse(s1, s1.More.parse, t, 0, True) for t in ('ab!', 'ab', '7!')]
+                    other = [realrun.call_parse(s2, s2.More.parse, t, 0, True) for t in ('7?', 'ab?')]
+                    out.append(['siblings', before, after, other])
+                except Exception as e:  # noqa
+                    out.append(['siblings-exc', type(e).__name__, str(e)[:150]])
     finally:
         rt.enable(False)
         events = rt.drain()
@@ -261,7 +305,7 @@ def run(chk):
             + 'Outer = /[ab,=]+/ |> `lambda s: [s, _vnested(s.split(",")[0].split("=")[0])]`\n'
             # the nested parse happens in the first alternative; the second one asks for the same rules again
             + 'Outer2 = [Word, Nest, "!"] | [Word, Nest, "?"]\n'
-            + 'Nest = "=" >> (Word |> `lambda s: _vnested(s)`)\n')
+            + 'Nest = "=" >> (Word |> `lambda s: _vnested(s)`)\n' + ACCUM)
     words = ['a', 'b', 'ab', 'bb', 'ba', 'abb', 'bb', 'aab']
     texts = []
     for _ in range(60 if chk.tier == 'quick' else 400):
@@ -301,8 +345,12 @@ def run(chk):
         steps.append(['nested', 'bb,a'])
         steps.append(['nested2', 'ab=ba?'])
         steps.append(['nested2', 'a=b!'])
+        steps.append(['accum', ['ab,b', 'a', 'ab,b', 'zz', 'b,a,b']])
+        if h % 2:
+            steps.append(['siblings'])
+            steps.append(['accum', ['a,a']])
         hist_cases.append({'id': h, 'desc': named if h % 2 else desc, 'steps': steps, 'trace': True,
-                           'installed': ['vg_c18', 'vg_c18_child']})
+                           'installed': ['vg_c18', 'vg_c18_child', 'vg_c18_sib1', 'vg_c18_sib2']})
     recs = engine.run_real(hist_cases, fn='history_worker', hooks=True, batch=1)
 
     def judge(call, o, where):
@@ -337,6 +385,21 @@ def run(chk):
             elif step[0] == 'compile':
                 if o[0] != 'compiled':
                     chk.notes.setdefault('compile_problems', []).append(o)
+            elif step[0] == 'accum':
+                here, fresh = o
+                for t, a, b in zip(step[1], here, fresh):
+                    chk.count(['accum', hc['id'], t], True)
+                    if a != b:
+                        chk.violation('a call on a module with history differs from the same call on a freshly compiled '
+                                      'module | Acc.parse(%r) | fresh %s | observed %s' % (t, b, a),
+                                      {'text': t, 'fresh': b, 'observed': a})
+            elif step[0] == 'siblings':
+                chk.count(['siblings', hc['id']], True)
+                if o[0] != 'siblings':
+                    chk.violation('creating sibling extenders failed: %s' % (o,), {'observed': o})
+                elif o[1] != o[2]:
+                    chk.violation('compiling a second grammar that extends the same base altered the first one | before %s '
+                                  '| after %s' % (o[1], o[2]), {'before': o[1], 'after': o[2]})
             elif step[0] == 'nested2':
                 t = step[1]
                 w1, w2 = t[:-1].split('=')
